@@ -244,7 +244,10 @@ theorem start_step (g : GoodChain C.sync ch top) {d : Store} (hd : DiskOK C.sync
 /-! ## the operations -/
 
 /-- what is assumed of an operation: a placed blob that the classifier accepts is a part of the chain; what the P2P
-store loops hand over are parts of the chain -/
+store loops hand over are parts of the chain.  **The second is a genuine restriction for data**: P2P headers are
+signed, P2P `Data` is not, so a junk data item is excluded here by hypothesis, not by a check of the node
+(`Spec.C02.C02_junk_data_harmless` / `C02_converges_junk_fails` say what such an item can and cannot do to the sync
+loop; recorded finding `C02/stall/junk-p2p-data-replaced-cached-data`). -/
 def OpOK (C : Cfg) (ch : PChain) : HOp → Prop
   | .place _ b o => BlobOK C ch (b, o)
   | .p2p es => ∀ e ∈ es, EvOK C ch e
